@@ -14,6 +14,7 @@ import (
 	"github.com/attestantio/go-eth2-client/spec/phase0"
 	"github.com/attestantio/vouch/internal/vnd"
 	"github.com/attestantio/vouch/internal/vstub"
+	"github.com/attestantio/vouch/services/synccommitteeaggregator"
 	"github.com/attestantio/vouch/services/synccommitteemessenger"
 )
 
@@ -40,15 +41,30 @@ func (h *hSyncSubscriber) Subscribe(_ context.Context, endEpoch phase0.Epoch, _ 
 	return nil
 }
 
+type hSyncAggRec struct {
+	duties []*synccommitteeaggregator.Duty
+}
+
+func (h *hSyncAggRec) SetBeaconBlockRoot(_ phase0.Slot, _ phase0.Root) {}
+func (h *hSyncAggRec) Aggregate(_ context.Context, d *synccommitteeaggregator.Duty) {
+	h.duties = append(h.duties, d)
+}
+
 type hSyncMessenger struct {
-	prepared []*synccommitteemessenger.Duty
+	messaged    []*synccommitteemessenger.Duty
+	failMessage bool
+	prepared    []*synccommitteemessenger.Duty
 }
 
 func (h *hSyncMessenger) Prepare(_ context.Context, duty *synccommitteemessenger.Duty) error {
 	h.prepared = append(h.prepared, duty)
 	return nil
 }
-func (h *hSyncMessenger) Message(_ context.Context, _ *synccommitteemessenger.Duty) ([]*altair.SyncCommitteeMessage, error) {
+func (h *hSyncMessenger) Message(_ context.Context, d *synccommitteemessenger.Duty) ([]*altair.SyncCommitteeMessage, error) {
+	h.messaged = append(h.messaged, d)
+	if h.failMessage {
+		return nil, errors.New("mock message failure")
+	}
 	return nil, nil
 }
 func (h *hSyncMessenger) GetDataUsedForSlot(_ phase0.Slot) (synccommitteemessenger.SlotData, bool) {
@@ -173,4 +189,78 @@ func VerifC15_AltairDetails() {
 	vnd.Cover("C15.altair.spec-read")
 	vnd.Assert(handling, "C15.altair.handling")
 	vnd.Assert(uint64(epoch) == fork, "C15.altair.fork-epoch-from-spec")
+}
+
+// VerifC15_MessageAndAggregate: the per-slot message job: the messenger is asked
+// to message for the duty; afterwards an aggregation job for that slot exists
+// exactly when some member was selected as aggregator, at slot start + the
+// aggregation delay, and running it hands the aggregator exactly the selected
+// members with their subcommittees, proofs and accounts. A failure to message
+// sets up no aggregation.
+func VerifC15_MessageAndAggregate() {
+	vstub.SPEChoices = []uint64{4}
+	e := newCtlEnv()
+	msgr := &hSyncMessenger{failMessage: vnd.Bool("message.fail")}
+	agg := &hSyncAggRec{}
+	e.s.syncCommitteeMessenger = msgr
+	e.s.syncCommitteeAggregator = agg
+	e.s.syncCommitteeAggregationDelay = time.Duration(vnd.I64("delay.sync-aggregation"))
+	vnd.Assume(e.s.syncCommitteeAggregationDelay >= 0 && e.s.syncCommitteeAggregationDelay < time.Hour)
+	slot := phase0.Slot(vnd.U64("slot"))
+	vnd.Assume(uint64(slot) < 1<<40)
+	m := vnd.IntRange("members", 1, 2)
+	indices := map[phase0.ValidatorIndex][]phase0.CommitteeIndex{}
+	for i := 0; i < m; i++ {
+		indices[phase0.ValidatorIndex(40+i)] = []phase0.CommitteeIndex{phase0.CommitteeIndex(i)}
+	}
+	duty := synccommitteemessenger.NewDuty(slot, indices)
+	selected := make([]bool, m)
+	proofs := make([]phase0.BLSSignature, m)
+	anySelected := false
+	for i := 0; i < m; i++ {
+		v := phase0.ValidatorIndex(40 + i)
+		duty.SetAccount(v, &vstub.Account{VIndex: uint64(v), Nm: "acc"})
+		selected[i] = vnd.Bool("selected-as-aggregator")
+		if selected[i] {
+			anySelected = true
+			proofs[i] = phase0.BLSSignature(vnd.Sig("selection-proof"))
+			duty.SetAggregatorSubcommittees(v, uint64(i), proofs[i])
+		}
+	}
+	e.s.messageSyncCommittee(context.Background(), duty)
+	vnd.Assert(len(msgr.messaged) == 1 && msgr.messaged[0] == duty, "C15.message.messenger-asked-for-the-duty")
+	name := fmt.Sprintf("Sync committee aggregation for slot %d", slot)
+	if msgr.failMessage || !anySelected {
+		vnd.Assert(len(e.sched.Jobs) == 0, "C15.message.no-aggregation-job-without-messages-or-aggregators")
+		return
+	}
+	vnd.Cover("C15.message.aggregation-job")
+	vnd.Assert(len(e.sched.Jobs) == 1 && e.sched.Count(name) == 1, "C15.message.one-aggregation-job-for-the-slot")
+	j := e.sched.Find(name)
+	if j == nil {
+		return
+	}
+	vnd.Assert(j.Time.Equal(e.ct.StartOfSlot(slot).Add(e.s.syncCommitteeAggregationDelay)), "C15.message.aggregation-job-at-slot-start-plus-delay")
+	j.Fn(context.Background())
+	vnd.Assert(len(agg.duties) == 1, "C15.message.job-aggregates-once")
+	d := agg.duties[0]
+	vnd.Assert(d.Slot == slot, "C15.message.aggregation-duty-slot")
+	nsel := 0
+	for i := 0; i < m; i++ {
+		v := phase0.ValidatorIndex(40 + i)
+		listed := false
+		for _, x := range d.ValidatorIndices {
+			if x == v {
+				listed = true
+			}
+		}
+		vnd.Assert(listed == selected[i], "C15.message.exactly-the-selected-members-aggregate")
+		if selected[i] {
+			nsel++
+			p, ok := d.SelectionProofs[v][uint64(i)]
+			vnd.Assert(ok && p == proofs[i] && len(d.SelectionProofs[v]) == 1, "C15.message.their-subcommittees-and-proofs")
+			vnd.Assert(d.Accounts[v] != nil, "C15.message.their-accounts")
+		}
+	}
+	vnd.Assert(len(d.ValidatorIndices) == nsel, "C15.message.nobody-else")
 }
